@@ -24,6 +24,14 @@ var (
 	kB = srv.Key{ID: "b", Cipher: "aes-192-gcm", Secret: "s-b"}
 )
 
+func cfgLegacy(withB bool) srv.Cfg {
+	c := srv.Cfg{Legacy: []srv.Legacy{{Key: kA, Port: 9000}, {Key: kA, Port: 9001}, {Key: kA, Port: 9002}}}
+	if withB {
+		c.Legacy = append(c.Legacy, srv.Legacy{Key: kB, Port: 9001})
+	}
+	return c
+}
+
 func cfg(withB bool) srv.Cfg {
 	keys2 := []srv.Key{kA}
 	if withB {
@@ -40,6 +48,8 @@ type caseT struct {
 	Where   string `json:"replay_on"` // same | other-listener | other-service
 	Between string `json:"between"`   // none | reload | failed-reload | other-traffic
 	History int    `json:"history"`
+	Pre     int    `json:"fillers_before"` // distinct handshakes presented on the first service before the original
+	Legacy  bool   `json:"legacy_format"`  // the deprecated per-port key format instead of services
 }
 
 type present struct {
@@ -94,19 +104,26 @@ func scenario(c caseT) *engine.Scenario {
 	sc.Body = func() {
 		first, replay, fresh, bootErr = present{}, present{}, present{}, ""
 		w := srv.NewWorld()
-		if err := w.Boot(cfg(false), c.History); err != nil {
+		mk := cfg
+		if c.Legacy {
+			mk = cfgLegacy
+		}
+		if err := w.Boot(mk(false), c.History); err != nil {
 			bootErr = err.Error()
 			return
 		}
 		k := kA
 		key := world.MakeKey(k.ID, k.Cipher, k.Secret)
+		for i := 0; i < c.Pre; i++ {
+			presentOn(w, 9000, key, uint64(700+i), 40+i)
+		}
 		first = presentOn(w, 9000, key, 500, 0)
 		switch c.Between {
 		case "reload":
-			w.Reload(cfg(true))
+			w.Reload(mk(true))
 		case "failed-reload":
 			w.VW.BindErr["tcp/127.0.0.1:9009"] = syscall.EADDRINUSE
-			bad := cfg(true)
+			bad := mk(true)
 			bad.Services = append(bad.Services, srv.Svc{Listeners: []srv.Ln{{Type: "tcp", Addr: "127.0.0.1:9009"}}, Keys: []srv.Key{kB}})
 			w.Reload(bad)
 		case "other-traffic":
@@ -156,6 +173,13 @@ func cases() []caseT {
 					continue // five other handshakes push it out of a history of one: no obligation
 				}
 				out = append(out, caseT{Where: where, Between: b, History: h})
+				if h == 10 {
+					out = append(out, caseT{Where: where, Between: b, History: h, Legacy: true})
+				}
+				if h <= 10 && b != "other-traffic" {
+					// fill the history first, so that the original lands right after a rotation
+					out = append(out, caseT{Where: where, Between: b, History: h, Pre: h}, caseT{Where: where, Between: b, History: h, Pre: 2*h + 1})
+				}
 			}
 		}
 	}
